@@ -93,7 +93,7 @@ func valNat(v string) int {
 	if v == "" {
 		return 0
 	}
-	if canon.MatchString(v) {
+	if canon.MatchString(v) && len(v) <= 3 {
 		n, _ := strconv.Atoi(v)
 		return n
 	}
@@ -263,10 +263,17 @@ func c14(c *ctx) {
 		parseRecord(fmt.Sprintf("parse/ok/%v", o), o.kvs())
 	}
 	names := []string{"server_no_context_takeover", "client_no_context_takeover", "server_max_window_bits", "client_max_window_bits"}
-	vals := []string{"", "7", "8", "15", "16", "x", "08", "150", "1", "0"}
+	// (values that are not a canonical decimal in 8..15: letters, leading zeros, the six bytes that follow
+	// '9' in ASCII, signs, blanks, numbers that wrap around 2^32 / 2^64 onto a valid one)
+	vals := []string{"", "7", "8", "15", "16", "x", "08", "150", "1", "0", ":", ";", "<", "=", ">", "?", "1:", "1.", "1/", "9:", "+8", "-8", "8 ", " 8", "8.0", "0x8", "010",
+		"4294967304", "18446744073709551624", "18446744073709551626", "١٠"}
+	tokenSafe := regexp.MustCompile(`^[A-Za-z0-9.+-]*$`)
 	for _, nm := range names {
 		for _, v := range vals {
 			parseRecord(fmt.Sprintf("parse/val/%s/%s", nm, v), []kv{{nm, v}})
+			if !tokenSafe.MatchString(v) {
+				continue // (duplicates are produced from header text: only values that need no quoting)
+			}
 			for _, v2 := range []string{"", "10"} {
 				parseRecord(fmt.Sprintf("parse/dup/%s/%s/%s", nm, v, v2), []kv{{nm, v}, {nm, v2}})
 				parseRecord(fmt.Sprintf("parse/dup3/%s/%s/%s", nm, v, v2), []kv{{nm, v}, {"server_no_context_takeover", ""}, {nm, v2}})
